@@ -78,6 +78,14 @@ CHECKS = {
          'Lean model) + real pty children whose recorded reads are replayed through the model; direct oracles on output, responses, naive re-search, exit status.',
          'Callbacks are an arbitrary oracle indexed by (callback, event_count); a diverging run is judged on every finite prefix (fuel). '
          'Children are open-loop event streams: every theorem quantifies over all of them, which covers reactive children.', '4/C12'),
+ 'C17': ('Theorems C17.* about Px.login, the interpreter of the decision table that T-pxssh regenerates from pxssh.py (login / set_unique_prompt / prompt ASTs) on every run, '
+         'for every server (what each expect answers, what each try_read_prompt collects) and option set: password_sent_at_most_once_and_only_after_prompt, '
+         'yes_only_to_hostkey, login_sent_shape, true_implies_prompt_and_unique_prompt_partial, default_login_needs_prompt, otherwise_raises (ExceptionPxssh only after close), '
+         'login_time_bound (call counts), table facts by decide, and silent_server_logs_in_when_checks_off (witness that the full-strength success claim is false). '
+         'Tie: translator + the real pxssh class driven against a scripted in-process server under a virtual clock; every expect answer / read / send replayed through the Lean '
+         'interpreter; server-side oracles (secrets only after their prompt, True only with the unique prompt set, raise => closed, time budget, prompt() delimits); real fake-ssh processes.',
+         'Partial: True with auto_prompt_reset=False and sync_original_prompt=False on a TIMEOUT outcome is a known finding (upstream heuristic). The level is the answer of each '
+         'expect call (C02/C03 tie an answer to the stream); levenshtein similarity is modelled exactly (rational comparison instead of float, equal below 10^15 characters).', '4/C17'),
 }
 PENDING = {}
 for i in range(5, 21):
